@@ -54,4 +54,15 @@ theorem hook_calls_match_model :
     hookCalls (pegItems [0] [.nil]) = pegMarshalCalls.map (fun s => if s = "size" then "int64" else s) ∧
     progCalls pegProg = pegUnmarshalCalls.map (fun s => if s = "size" then "int64" else s) := by decide
 
+/-- **No image-only pseudo flag survives in the in-memory fiber** (tie): the bits that the current `unmarshal_one_fiber` clears
+between the flags it reads and `fiber->flags = …` are exactly `JANET_FIBER_FLAG_HASENV` and `JANET_FIBER_FLAG_HASCHILD`, the
+two bits `fiberMemFlags` of Code.lean clears (`Props.C09.fiber_flags_no_wire_bits`).  A fiber that keeps one of them is
+marshalled with a promise ("a child follows") that `marshal_one_fiber` does not keep once `fiber->child` is NULL again. -/
+theorem fiber_wire_bits_stripped : (fiberMemStripMask : Int) = fiberHasEnv + fiberHasChild := by decide
+
+/-- **Marshalling does not change the fiber**: `JANET_STACKFRAME_HASENV` is computed for the image, not stored in the live
+stack frame (a tail call clears `frame->env` and keeps `frame->flags`; the next image of the same fiber then announced an
+environment that was not written).  On a tree without patches/fix-C09-fiber-frame-hasenv-stale.diff this is false. -/
+theorem marshal_leaves_frames_unchanged : marshalStoresFrameHasEnv = 0 := by decide
+
 end JanetModel.Marsh.CodeObligations
